@@ -3,9 +3,9 @@
 package sim
 
 import (
-	"math/big"
 	"encoding/json"
 	"fmt"
+	"math/big"
 	"sync"
 	"time"
 
@@ -26,13 +26,14 @@ import (
 	transfertypes "github.com/cosmos/ibc-go/v8/modules/apps/transfer/types"
 	porttypes "github.com/cosmos/ibc-go/v8/modules/core/05-port/types"
 
+	hyperlaneutil "github.com/bcp-innovations/hyperlane-cosmos/util"
 	ismtypes "github.com/bcp-innovations/hyperlane-cosmos/x/core/01_interchain_security/types"
 	pdtypes "github.com/bcp-innovations/hyperlane-cosmos/x/core/02_post_dispatch/types"
 	hypcoretypes "github.com/bcp-innovations/hyperlane-cosmos/x/core/types"
 	warptypes "github.com/bcp-innovations/hyperlane-cosmos/x/warp/types"
 	cctptypes "github.com/circlefin/noble-cctp/x/cctp/types"
-	"github.com/cosmos/gogoproto/proto"
 	ftftypes "github.com/circlefin/noble-fiattokenfactory/x/fiattokenfactory/types"
+	"github.com/cosmos/gogoproto/proto"
 
 	"github.com/noble-assets/orbiter/v2/simapp"
 	"github.com/noble-assets/orbiter/v2/testutil"
@@ -68,6 +69,8 @@ type Sim struct {
 	HypTokens map[string]string
 	// IGPs are the interchain gas paymasters created at set-up.
 	IGPs []IGP
+	// Mailbox is the Hyperlane mailbox created at set-up.
+	Mailbox hyperlaneutil.HexAddress
 }
 
 // Options tweak the genesis before InitChain.
@@ -259,6 +262,7 @@ func (s *Sim) setupHyperlane() error {
 		}
 		s.IGPs = append(s.IGPs, g)
 	}
+	s.Mailbox = mbResp.Id
 	s.HypTokens = map[string]string{}
 	for _, denom := range HypDenoms {
 		r, err = run(&warptypes.MsgCreateCollateralToken{Owner: owner, OriginMailbox: mbResp.Id, OriginDenom: denom})
